@@ -105,7 +105,7 @@ pub const ELEM_CLASSES: &[NameClass] = &[
         names: &["text", "text_content", "foo_1", "type_attr", "r_type", "text_1", "a_attr", "foo_attr", "Text", "a_1", "a_type", "foo_2", "foo-2", "foo.1", "a_2", "text_content_1", "foo_3", "a_3"],
     },
     NameClass { tag: "nonascii", names: &["é", "Ж", "жж", "λ", "名", "ñu", "Éa", "жЖ", "名前", "über", "ab名前", "é名前", "Идентификатор", "КАТАЛОГ", "ТОВАР", "AÑo", "ÉCOLE", "ÜBER"] },
-    NameClass { tag: "digit", names: &["a1", "a2b", "x10", "A1", "b2", "a1b2", "h1", "H1"] },
+    NameClass { tag: "digit", names: &["a1", "a2b", "x10", "A1", "b2", "a1b2", "h1", "H1", "S3Bucket", "H264Settings", "MP3Player", "H1N1", "item2Name", "base64Data", "ITEM2NAME", "x1Y"] },
     NameClass {
         tag: "long",
         names: &[
